@@ -427,11 +427,17 @@ ares_status_t ares_reinit(ares_channel_t *channel)
     return ARES_SUCCESS;
   }
   channel->reinit_pending = ARES_TRUE;
-  ares_channel_unlock(channel);
 
+  /* Keep holding the channel lock while the thread handle is read, joined,
+   * replaced and stored.  Otherwise the new thread can finish and clear
+   * reinit_pending before its handle is stored, and a concurrent caller then
+   * reads, joins or overwrites the handle at the same time.  ares_destroy()
+   * clears sys_up under the lock before it looks at the handle. */
   if (ares_threadsafety()) {
     /* clean up the prior reinit process's thread.  We know the thread isn't
-     * running since reinit_pending was false */
+     * running since reinit_pending was false: clearing it is the last thing
+     * the thread does under the channel lock, so joining here cannot block
+     * on the lock we hold. */
 #ifdef CARES_VERIF
     if (ares_verif_sync_cb != NULL) {
       ares_verif_sync_cb(ARES_VERIF_SYNC_SHARED_READ, &channel->reinit_thread,
@@ -470,6 +476,8 @@ ares_status_t ares_reinit(ares_channel_t *channel)
     /* Threading support not available, call directly */
     ares_reinit_thread(channel);
   }
+
+  ares_channel_unlock(channel);
 
   return status;
 }
